@@ -459,6 +459,27 @@ package engine
 //@   ensures [C06.protocol] result1 != nil ==> arg(NewSocket, 1, protocol) == (eio4 ? 4 : 3) && arg(NewSocket, 1, transport) == result1 && arg(NewSocket, 1, ctx) == ctx
 //@   ensures [C06.rev3]     result1 != nil && !eio4 ==> bs.opts.AllowEIO3()
 
+// ---- C17: the headers listener of a session's transport. It runs for every HTTP response of the session; the response
+// to the request that carries no session id - the handshake - and only that one gets the cookie (whose value is the
+// session id, written to a copy: the configured cookie is shared by all sessions) and the initial_headers event
+//@ func (*baseServer).Handshake$1(args)
+//@   props C17
+//@   requires bs != nil && bs.opts != nil && bs.EventEmitter != nil && len(args) >= 2
+//@   requires typeis(args[0], *utils.ParameterBag) && typeis(args[1], *types.HttpContext) && unbox(args[0], *utils.ParameterBag) != nil && unbox(args[1], *types.HttpContext) != nil && unbox(args[1], *types.HttpContext).query != nil
+//@   modifies *
+//@   let headers = unbox(args[0], *utils.ParameterBag)
+//@   let req     = unbox(args[1], *types.HttpContext)
+//@   let initial = !uf_b_has(old(req.query), "sid", old(req.query.$bagver))
+//@   let cookie  = bs.opts.Cookie()
+//@   ensures [C17.cookie.handshakeonly] !initial ==> ncalls((*utils.ParameterBag).Set, key == "Set-Cookie") == 0 && emitted(bs.EventEmitter, "initial_headers") == 0
+//@   ensures [C17.cookie.set]    initial && cookie != nil ==> ncalls((*utils.ParameterBag).Set, key == "Set-Cookie" && p == headers) == 1 && calls((*http.Cookie).String) == 1 && arg((*utils.ParameterBag).Set, 1, value) == ret((*http.Cookie).String, 1)
+//@   ensures [C17.cookie.none]   initial && cookie == nil ==> ncalls((*utils.ParameterBag).Set, key == "Set-Cookie") == 0
+//@   ensures [C17.initial.once]  initial ==> emitted(bs.EventEmitter, "initial_headers") == 1
+//@   ensures [C17.headers.every] emitted(bs.EventEmitter, "headers") == 1
+//@   ensures [C17.cookie.shared] cookie != nil ==> cookie.Value == old(cookie.Value)
+//@   callsite (*http.Cookie).String#1
+//@     assert [C17.cookie.value]  $c.Value == id && $c.Name == cookie.Name && $c.Path == cookie.Path && $c.HttpOnly == cookie.HttpOnly && $c.SameSite == cookie.SameSite && $c.MaxAge == cookie.MaxAge && $c.Secure == cookie.Secure && $c.Domain == cookie.Domain
+
 // the close listener registered by Handshake: removes exactly this id and decrements the count by one (64-bit -1)
 //@ func (*baseServer).Handshake$2()
 //@   props C04
